@@ -695,18 +695,22 @@ impl Authentication for AuthenticationBuiltin {
   ) -> SecurityResult<(ValidationOutcome, Option<HandshakeMessageToken>)> {
     // Check what is the handshake state
     let remote_identity_handle = *self.handshake_handle_to_identity_handle(&handshake_handle)?;
-    let remote_info = self.get_remote_participant_info_mutable(&remote_identity_handle)?;
+    let remote_info = self.get_remote_participant_info(&remote_identity_handle)?;
 
-    // This trickery is needed because BuiltinHandshakeState contains
-    // key pairs, which cannot be cloned. We just move the "state" out and leave
-    // a dummy value behind. At the end of this function we will overwrite the
-    // dummy.
-    let mut state = BuiltinHandshakeState::PendingRequestSend; // dummy to leave behind
-    std::mem::swap(&mut remote_info.handshake.state, &mut state);
+    // Borrow the field directly, so that the remote info can be modified while this is
+    // alive.
+    let local_info = self.local_participant_info.as_ref().ok_or_else(|| {
+      create_security_error_and_log!(
+        "Local participant info not found. Has the local identity been validated?"
+      )
+    })?;
 
-    let local_info = self.get_local_participant_info()?;
-
-    match state {
+    // The state is only looked at until the message has been verified: a message that
+    // is not accepted must leave the handshake (also a completed one) as it was.
+    // BuiltinHandshakeState contains key pairs, which cannot be cloned, so once the
+    // message is accepted, we move the "state" out, leave a dummy value behind, and
+    // overwrite the dummy at the end.
+    match &remote_info.handshake.state {
       BuiltinHandshakeState::PendingReplyMessage {
         dh1,
         challenge1,
@@ -746,14 +750,14 @@ impl Authentication for AuthenticationBuiltin {
 
         // TODO: verify ocsp_status / status of IdentityCredential
 
-        if challenge1 != reply.challenge1 {
+        if *challenge1 != reply.challenge1 {
           return Err(create_security_error_and_log!(
             "Challenge 1 mismatch on authentication reply"
           ));
         }
 
         if let Some(received_hash_c1) = reply.hash_c1 {
-          if hash_c1 != received_hash_c1 {
+          if *hash_c1 != received_hash_c1 {
             return Err(create_security_error_and_log!(
               "Hash C1 mismatch on authentication reply"
             ));
@@ -836,6 +840,24 @@ impl Authentication for AuthenticationBuiltin {
         }
 
         let dh1_public_key = dh1.public_key_bytes()?;
+
+        // The reply is accepted. Take the state out to get the key pair.
+        let (dh1, challenge1, hash_c1) = match self
+          .remote_participant_infos
+          .get_mut(&remote_identity_handle)
+          .map(|remote_info| {
+            std::mem::replace(
+              &mut remote_info.handshake.state,
+              BuiltinHandshakeState::PendingRequestSend, // dummy to leave behind
+            )
+          }) {
+          Some(BuiltinHandshakeState::PendingReplyMessage {
+            dh1,
+            challenge1,
+            hash_c1,
+          }) => (dh1, challenge1, hash_c1),
+          _ => unreachable!(), // we are in this very state
+        };
 
         // Compute the shared secret
         let shared_secret = dh1.compute_shared_secret(reply.dh2.clone())?;
@@ -924,7 +946,7 @@ impl Authentication for AuthenticationBuiltin {
 
         // This is a sanity check
         if let Some(received_hash_c1) = final_token.hash_c1 {
-          if hash_c1 != received_hash_c1 {
+          if *hash_c1 != received_hash_c1 {
             return Err(create_security_error_and_log!(
               "Hash C1 mismatch on authentication final receive"
             ));
@@ -933,7 +955,7 @@ impl Authentication for AuthenticationBuiltin {
 
         // This is a sanity check 2
         if let Some(received_hash_c2) = final_token.hash_c2 {
-          if hash_c2 != received_hash_c2 {
+          if *hash_c2 != received_hash_c2 {
             return Err(create_security_error_and_log!(
               "Hash C2 mismatch on authentication final receive"
             ));
@@ -941,7 +963,7 @@ impl Authentication for AuthenticationBuiltin {
         }
 
         // sanity check
-        if dh1_public != final_token.dh1 {
+        if *dh1_public != final_token.dh1 {
           return Err(create_security_error_and_log!(
             "Diffie-Hellman parameter DH1 mismatch on authentication final receive"
           ));
@@ -957,12 +979,12 @@ impl Authentication for AuthenticationBuiltin {
 
         // "The operation shall check that the challenge1 and challenge2 match the ones
         // that were sent on the HandshakeReplyMessageToken."
-        if challenge1 != final_token.challenge1 {
+        if *challenge1 != final_token.challenge1 {
           return Err(create_security_error_and_log!(
             "process_handshake: Final token challenge1 mismatch"
           ));
         }
-        if challenge2 != final_token.challenge2 {
+        if *challenge2 != final_token.challenge2 {
           //
           return Err(create_security_error_and_log!(
             "process_handshake: Final token challenge2 mismatch"
@@ -1006,6 +1028,26 @@ impl Authentication for AuthenticationBuiltin {
               "Signature verification failed in process_handshake: {e:?}"
             )
           })?;
+
+        // The final message is accepted. Take the state out to get the key pair.
+        let (dh1_public, dh2, challenge1, challenge2) = match self
+          .remote_participant_infos
+          .get_mut(&remote_identity_handle)
+          .map(|remote_info| {
+            std::mem::replace(
+              &mut remote_info.handshake.state,
+              BuiltinHandshakeState::PendingRequestSend, // dummy to leave behind
+            )
+          }) {
+          Some(BuiltinHandshakeState::PendingFinalMessage {
+            dh1_public,
+            dh2,
+            challenge1,
+            challenge2,
+            ..
+          }) => (dh1_public, dh2, challenge1, challenge2),
+          _ => unreachable!(), // we are in this very state
+        };
 
         // Compute the shared secret
         let shared_secret = dh2.compute_shared_secret(dh1_public)?;
